@@ -42,6 +42,9 @@ site: http://bugseng.com/products/ppl/ . */
 #include <vector>
 #include <map>
 #include <iostream>
+#ifdef BUGSENG_PPL_VERIF
+#include "verif_hooks.hh"
+#endif
 
 namespace Parma_Polyhedra_Library {
 
@@ -3029,6 +3032,9 @@ void
 Box<ITV>
 ::propagate_constraints_no_check(const Constraint_System& cs,
                                  const dimension_type max_iterations) {
+#ifdef BUGSENG_PPL_VERIF
+  PPL_VERIF_REACH(BOX_PROPAGATE);
+#endif
   const dimension_type space_dim = space_dimension();
   PPL_ASSERT(cs.space_dimension() <= space_dim);
 
